@@ -36,7 +36,7 @@ ANCHORS = ['recursiveloader:ManifestRecursiveLoader.assert_directory_verifies',
            'cli:verify_failure', 'verify:get_file_metadata']
 REQUIRED = ['recursiveloader:SubprocessVerifier._verify_one_file', 'handler_calls',
             'cli_runs', 'cli_multi_runs', 'walk_permuted', 'stress_runs', 'loop_runs',
-            'structural_cli_runs']
+            'structural_cli_runs', 'process_exit_statuses']
 ASSUMPTIONS = ['the Manifest chain is intact and duplicates agree in this workload '
                '(a broken chain / conflict is raised directly, C01/C02)',
                'handler return values are True / False / None']
@@ -55,6 +55,9 @@ def units(tier, seed):
     u = [{'k': 'gen', 'i': i, 'n': PER_UNIT} for i in range(N[tier] // PER_UNIT)]
     for i in range(6 if tier == 'quick' else 60):
         u.append({'k': 'stress', 'i': i})
+    for n in ([255, 256, 512] if tier == 'quick' else
+              [1, 255, 256, 257, 511, 512, 768, 1024]):
+        u.append({'k': 'exitstatus', 'n': n})
     for i in range(10 if tier == 'quick' else 200):
         u.append({'k': 'loop', 'i': i})
     for i in range(9 if tier == 'quick' else 90):
@@ -347,6 +350,40 @@ def exec_stress(ctx, nstray, kind):
         ctx.sample(case, 'stress')
 
 
+def run_exitstatus(u, ctx):
+    """`gemato verify -k` as a real process: whatever the number of offending paths,
+    the exit status the shell sees is non-zero (an exit status is taken modulo 256)."""
+    import subprocess
+    import sys
+    n = u['n']
+    with common.Scratch('vf-c07e-') as d:
+        root = os.path.join(d, 't')
+        os.makedirs(root)
+        for i in range(n):
+            with open(os.path.join(root, 'stray%04d' % i), 'w') as f:
+                f.write('x')
+        with open(os.path.join(root, 'Manifest'), 'w') as f:
+            f.write('')
+        case = {'kind': 'exitstatus', 'n': n}
+        ctx.case(sig=('exitstatus', n), case=case, klass='exitstatus')
+        ctx.count('process_exit_statuses')
+        code = ('import sys; sys.path.insert(0, %r); sys.argv = %r; '
+                'from gemato.cli import setuptools_main; setuptools_main()'
+                % (common.REPO, ['gemato', 'verify', '-k', root]))
+        try:
+            r = subprocess.run([sys.executable, '-c', code], capture_output=True,
+                               timeout=600)
+        except subprocess.TimeoutExpired:
+            ctx.discarded('verify -k of %d strays did not finish in 600 s' % n)
+            return
+        nrep = r.stderr.count(b'stray')
+        if r.returncode == 0:
+            ctx.violation('process-exit-status-0', '`gemato verify -k` on a tree with %d '
+                          'offending paths (%d log lines naming one) ended with exit '
+                          'status 0' % (n, nrep), case)
+        ctx.sample(case, 'exitstatus')
+
+
 def run_loop(u, ctx):
     """A symlink loop must still be raised under a lenient handler."""
     from gemato.exceptions import ManifestSymlinkLoop
@@ -508,12 +545,15 @@ def run_structural(u, ctx):
 
 def run_unit(u, ctx):
     {'gen': run_gen, 'stress': run_stress, 'loop': run_loop,
-     'structural': run_structural}[u['k']](u, ctx)
+     'structural': run_structural, 'exitstatus': run_exitstatus}[u['k']](u, ctx)
 
 
 def replay(case, ctx):
     if case.get('kind') == 'stress':
         exec_stress(ctx, case['n'], case['what'])
+        return
+    if case.get('kind') == 'exitstatus':
+        run_exitstatus({'n': case['n']}, ctx)
         return
     if case.get('kind') == 'loop':
         exec_loop(ctx, case['names'], case['policy'], case['walk_seed'])
